@@ -248,18 +248,28 @@ where
 
         let mls_group_id = group.mls_group_id.clone();
 
-        // Save the pending group
-        self.storage()
-            .save_group(group)
-            .map_err(|e| Error::Group(e.to_string()))?;
+        // An invitation must never disturb a group this client is already an active member of:
+        // saving the Pending record would overwrite the active group's record (state, last-message
+        // pointer) and its relays, e.g. when a welcome is replayed under a new wrapper id.
+        // The welcome itself is still recorded below.
+        let already_active = self
+            .get_group(&mls_group_id)?
+            .is_some_and(|existing| existing.state == group_types::GroupState::Active);
 
-        // Save the group relays
-        self.storage()
-            .replace_group_relays(
-                &mls_group_id,
-                welcome_preview.nostr_group_data.relays.clone(),
-            )
-            .map_err(|e| Error::Group(e.to_string()))?;
+        if !already_active {
+            // Save the pending group
+            self.storage()
+                .save_group(group)
+                .map_err(|e| Error::Group(e.to_string()))?;
+
+            // Save the group relays
+            self.storage()
+                .replace_group_relays(
+                    &mls_group_id,
+                    welcome_preview.nostr_group_data.relays.clone(),
+                )
+                .map_err(|e| Error::Group(e.to_string()))?;
+        }
 
         let processed_welcome = welcome_types::ProcessedWelcome {
             wrapper_event_id: *wrapper_event_id,
